@@ -131,6 +131,13 @@ func genC13(r *rand.Rand, t *Trace, thorough bool) {
 		c := runVecHistory(r, p, o, t)
 		t.Emit(c, "ivf.metric."+string(metrics[p.metric]))
 	}
+	// appended (the cases above are what they were): cosine over several cells, probed in part, with queries of
+	// any length -- the cells are ranked by the metric's own distance from the PREPROCESSED query
+	for it := 0; it < 10+n/20; it++ {
+		p := vecParams{kind: 1, dim: 2 + r.Intn(3), metric: 2, nlist: 3 + r.Intn(4), m: 1, nbits: 1}
+		o := vecHistOpts{nops: 25 + r.Intn(20), trainFirst: true, ntrain: 5*p.nlist + r.Intn(10), forceStyle: -1, dumpBeforeSearch: true}
+		t.Emit(runVecHistory(r, p, o, t), "ivf.cosine_many_cells")
+	}
 }
 
 // C14: PQ and IVFPQ.
@@ -173,5 +180,13 @@ func genC14(r *rand.Rand, t *Trace, thorough bool) {
 			c := runVecHistory(r, p, o, t)
 			t.Emit(c, []string{"", "", "pq", "ivfpq"}[kind]+".metric."+string(metrics[p.metric]))
 		}
+	}
+	// appended (the cases above are what they were): IVFPQ over several cells with ids re-used after removal --
+	// an update usually lands in another cell than the one the stale entry sits in
+	for it := 0; it < 10+n/20; it++ {
+		p, _ := rndParams(r, 3, thorough)
+		p.nlist = 3 + r.Intn(4)
+		o := vecHistOpts{nops: 30 + r.Intn(20), trainFirst: true, ntrain: 10*p.nlist + r.Intn(10), allowReuse: true, forceStyle: -1}
+		t.Emit(runVecHistory(r, p, o, t), "ivfpq.updates_across_cells")
 	}
 }
